@@ -61,7 +61,8 @@ class C13(Prop):
                 elif c < 0.85:
                     chs.append({"watcher": r.choice(["poll", "native", "poll2"])})
                 else:
-                    chs.append({"throttle": r.choice([10, 50])})
+                    # replacements that do not concern the fs worker: throttle, keyboard, action handler, error handler
+                    chs.append(r.choice([{"throttle": r.choice([10, 50])}, {"keyboard": r.random() < 0.5}, {"handler": True}, {"error_handler": True}]))
             fw = [r.choice(NAMES)] if r.random() < 0.2 else []
             cases.append({"changes": chs, "fail_watch": fw, "fail_unwatch": [], "det": True})
         # changes in the middle of an apply phase and rapid successions: the final state must still converge
@@ -75,6 +76,12 @@ class C13(Prop):
                     ch["gap_ms"] = 0
                 chs.append(ch)
             cases.append({"changes": chs, "fail_watch": [], "fail_unwatch": [], "det": False})
+        # a change issued from within the error handler: applied when the first runtime error (a failing watch()) is received
+        for i in range(10 if tier == "quick" else 120):
+            bad = r.choice(NAMES)
+            first = [(bad, True)] + [(n, r.random() < 0.7) for n in NAMES if n != bad and r.random() < 0.5]
+            chs = [{"pathset": wp(first)}, dict({"pathset": wp(rand_ps())} if r.random() < 0.7 else {"watcher": r.choice(["poll", "native", "poll2"])}, on_error=0)]
+            cases.append({"changes": chs, "fail_watch": [bad], "fail_unwatch": [], "det": False})
         for i, c in enumerate(cases):
             c["id"] = i
         return cases
@@ -85,7 +92,7 @@ class C13(Prop):
         c.rule = ("sequences of 1-4 configuration changes (path sets over a 3-path universe with recursion modes, watcher kind switches, no-op "
                   "throttle changes), issued while the worker is idle (compared call-by-call with the model), from inside the n-th watch/unwatch call "
                   "of the previous apply phase, or in rapid succession (final registration must equal the final configuration), with injected watch "
-                  "failures; thorough adds the bounded-exhaustive product of 8x8 path sets x kind-switch position. non-trivial = distinct cases with >= 2 changes")
+                  "failures, or from within the error handler when the first failure is reported; replacements of the throttle, keyboard flag, action and error handlers interleaved as no-ops for the registration; thorough adds the bounded-exhaustive product of 8x8 path sets x kind-switch position. non-trivial = distinct cases with >= 2 changes")
         r = rng(seed, "c13")
         cases = self.gen(r, tier)
         d = scratch("c13")
